@@ -349,9 +349,9 @@ def do_whole_array(hub, U, letters, rng):
                 try:
                     if via == "setitem":
                         tt[...] = src
+                        tt[...] = 1.0  # the target stays an ordinary, writable array of its own
                     else:
-                        tt.set_values(src)
-                    tt[...] = 1.0  # the target stays an ordinary, writable array of its own
+                        tt.set_values(src)  # (set_values may adopt the array it is given: no promise of a copy there)
                 except Exception:
                     pass
     t = fd.FlodymArray(dims=gen.dimset(fd, U, letters), values=gen.values_one("dyadic", rng, shape))
@@ -380,6 +380,7 @@ def do_errors(hub, U, letters, rng):
         tuple(its0[:2]) if len(its0) > 1 else (its0[0],),
         {l0: ["no-such-item"]},
         (its0[0], "no-such-item"),
+        {l0: its0[:1]}, {l0: tuple(its0[-1:])}, {U[l0].name: np.array(its0[:1])},  # a sequence holding ONE item is still a sequence
     ]
     for k in keys:
         try:
